@@ -595,6 +595,29 @@ static void targets(unsigned long long& unit)
 				}
 			}
 		}
+	// targets that vanish at and around the internally drawn start (unbounded domain): after a burn-in that is long for the
+	// walk through the empty region (steps of width 0.3 against a half width of 2: a direct jump into the support is a 5-sigma
+	// event, a free walk stays inside for 1600 steps in 1D / 800 steps in 2D with probability below 1e-19),
+	// every returned value lies in the support
+	{
+		std::function<double(double)> gap = [](double x) { return std::fabs(x) < 2 ? 0.0 : std::exp(-(std::fabs(x) - 2)); };
+		std::function<double(double, double)> ring = [](double x, double y) { double r = std::sqrt(x * x + y * y); return (r < 2 || r > 4) ? 0.0 : 1.0; };
+		std::function<double(double, double)> shell = [](double x, double y) { double r = std::sqrt(x * x + y * y); return r < 2 ? 0.0 : std::exp(-(r - 2)); };
+		for(unsigned seed = 0; seed < nseeds; seed++)
+		{
+			if(!mc::mine(unit++)) continue;
+			std::string key = "start_outside_support,seed=" + std::to_string(seed);
+			std::mt19937 g(seed);
+			V a;
+			std::vector<std::pair<double, double>> b, c;
+			if(mc::library_exits([&]() { a = Sample_Metropolis(g, gap, 0.3, 20, 1, 1600); b = Sample_Metropolis_2D(g, ring, {0.3, 0.3}, 20, 1, 800); c = Sample_Metropolis_2D(g, shell, {0.4, 0.3}, 20, 2, 800); })) { fail("targets", key, "terminated_process", "ended the process"); continue; }
+			g_cases++;
+			if(a.size() != 20 || b.size() != 20 || c.size() != 20) fail("targets", key, "wrong_number_of_samples", std::to_string(a.size()) + "/" + std::to_string(b.size()) + "/" + std::to_string(c.size()) + " samples for sample=20");
+			for(double x : a) if(!(gap(x) > 0)) { fail("targets", key + ",sampler=Sample_Metropolis", "value_outside_support_after_burn_in", "x = " + mc::dec(x) + " where the density vanishes"); break; }
+			for(auto& q : b) if(!(ring(q.first, q.second) > 0)) { fail("targets", key + ",sampler=Sample_Metropolis_2D,target=ring", "value_outside_support_after_burn_in", "(" + mc::dec(q.first) + "," + mc::dec(q.second) + ") where the density vanishes"); break; }
+			for(auto& q : c) if(!(shell(q.first, q.second) > 0)) { fail("targets", key + ",sampler=Sample_Metropolis_2D,target=shell", "value_outside_support_after_burn_in", "(" + mc::dec(q.first) + "," + mc::dec(q.second) + ") where the density vanishes"); break; }
+		}
+	}
 	// rejection and inverse-transform sampling with targets that vanish on part of the domain
 	for(unsigned seed = 0; seed < nseeds; seed++)
 	{
